@@ -141,3 +141,22 @@ fn(S + "__call__#threadlocal", cls="scoped_session", props=["C52"], returns="Ses
             # repeated calls within one scope return the same Session
             "implies(old(" + THAS + "), result is old(" + TLV + "))"],
    modifies=[TLV])
+
+# the same with a scopefunc: the scope's Session lives in the ScopedRegistry's dictionary under the key the scopefunc returns now
+SOTHERS = ("forall(lambda q: implies(q is not " + SKEY + ", dhas(" + SREG + ", q) == old(dhas(" + SREG + ", q)) and implies(dhas(" + SREG + ", q), "
+           "dget(" + SREG + ", q) is old(dget(" + SREG + ", q)))))")
+fn(S + "__call__#scopefunc", cls="scoped_session", props=["C52"], returns="Session",
+   types={"expr:self.registry": "ScopedRegistry", "expr:dget(" + SREG + ", " + SKEY + ")": "Session", "sess": "Session", "kw": "v"},
+   consts={"sa_exc.InvalidRequestError": "class"},
+   callees={"self.session_factory": dict(fn="orm/scoping.py::scoped_session.session_factory@call", args=[]),
+            "self.registry": dict(fn=R + "__call__", recv="self.registry", args=[], returns="Session"),
+            "warn_deprecated": "noop"},
+   requires=["isinst(self.registry, ScopedRegistry)", "all(isinst(dget(" + SREG + ", k), Session) for k in keys(" + SREG + "))"],
+   raises={"InvalidRequestError": KWT + " and dhas(" + SREG + ", " + SKEY + ")"},
+   may_raise={"Exception": "True"},
+   ensures=["dhas(" + SREG + ", " + SKEY + ") and dget(" + SREG + ", " + SKEY + ") is result",
+            # repeated calls within one scope return the same Session; no other scope's Session is touched
+            "implies(old(dhas(" + SREG + ", " + SKEY + ")), result is old(dget(" + SREG + ", " + SKEY + ")))",
+            "implies(" + KWT + " or old(dhas(" + SREG + ", " + SKEY + ")), " + SOTHERS + ")"],
+   exc_ensures={"InvalidRequestError": ["keys(" + SREG + ") == old(keys(" + SREG + "))", "forall(lambda q: dget(" + SREG + ", q) is old(dget(" + SREG + ", q)))"]},
+   modifies=["contents(" + SREG + ")"])
